@@ -332,6 +332,8 @@ enum Status { NotStarted, Runnable, Parked, Gated, Paused, Finished, Frozen }
 struct Th {
     status:     Status,
     streak:     u32,
+    /// consecutive harness-level retries (H_SPIN) since the last completed operation (H_OP): unproductive attempts
+    h_streak:   u32,
     last_site:  u32,
     park_abort: bool,
     pause_until: u64,
@@ -386,7 +388,7 @@ impl St {
         }
         let cands = loop {
             let cands = self.runnable();
-            let lively = cands.iter().filter(|&&i| self.th[i].streak < PAUSE_RELEASE_STREAK).count();
+            let lively = cands.iter().filter(|&&i| self.th[i].streak.max(self.th[i].h_streak) < PAUSE_RELEASE_STREAK).count();
             if lively == 0 {
                 // everybody else is finished, parked or spinning: a paused thread must be released
                 if let Some(p) = self.th.iter().position(|t| t.status == Status::Paused) {
@@ -442,7 +444,7 @@ impl St {
         let mut any = false;
         for t in &self.th {
             match t.status {
-                Status::Runnable => { any = true; if t.streak < k { return false } }
+                Status::Runnable => { any = true; if t.streak.max(t.h_streak) < k { return false } }
                 Status::Paused | Status::NotStarted => return false,
                 _ => {}
             }
@@ -501,6 +503,7 @@ impl Shared {
             let lp = is_loop_site(site);
             let t = &mut st.th[tid];
             if kind == rv::KIND_SPIN { t.streak += 1 } else if !lp { t.streak = 0 }
+            if site == H_SPIN { t.h_streak += 1 } else if site == H_OP { t.h_streak = 0 }
             t.last_site = site;
         }
         if st.step > st.cfg.max_steps {
@@ -520,8 +523,10 @@ impl Shared {
             }
         }
         // stall verdict
-        if kind == rv::KIND_SPIN && st.cfg.stall_k > 0 && st.th[tid].streak >= st.cfg.stall_k && st.all_runnable_stalled() {
-            let spinners = st.th.iter().enumerate().filter(|(_, t)| t.status == Status::Runnable).map(|(i, t)| (i, t.last_site)).collect();
+        if kind == rv::KIND_SPIN && st.cfg.stall_k > 0 && st.th[tid].streak.max(st.th[tid].h_streak) >= st.cfg.stall_k && st.all_runnable_stalled() {
+            // a thread stalled at harness level only (unproductive attempts, no library spin loop) is reported at H_SPIN
+            let k = st.cfg.stall_k;
+            let spinners = st.th.iter().enumerate().filter(|(_, t)| t.status == Status::Runnable).map(|(i, t)| (i, if t.streak >= k { t.last_site } else { H_SPIN })).collect();
             let gated = st.th.iter().enumerate().filter(|(_, t)| t.status == Status::Gated).map(|(i, _)| i).collect();
             self.do_abort(&mut st, Outcome::Stall { spinners, gated });
             self.freeze(st, tid);
@@ -546,7 +551,7 @@ impl Shared {
         if flag.take() { return true }
         st.step += 1;
         st.th[tid].status = Status::Parked;
-        st.th[tid].streak = 0;
+        st.th[tid].streak = 0; st.th[tid].h_streak = 0;
         let next = st.pick_next(tid, rv::KIND_POINT);
         if next == tid {
             // quiescence was declared and I was elected to wind down first
@@ -568,7 +573,7 @@ impl Shared {
         if st.abort { self.freeze(st, tid) }
         st.step += 1;
         st.th[tid].status = Status::Gated;
-        st.th[tid].streak = 0;
+        st.th[tid].streak = 0; st.th[tid].h_streak = 0;
         let next = st.pick_next(tid, rv::KIND_POINT);
         if next == tid { st.th[tid].status = Status::Runnable; return true }
         let st = self.hand_over(st, tid, next);
@@ -611,7 +616,7 @@ fn panic_msg(e: Box<dyn std::any::Any + Send>) -> String {
 fn run_ser(cfg: &RunCfg, bodies: Vec<Body>) -> Report {
     let n = bodies.len();
     let mut rng = Rng::new(cfg.seed);
-    let mut th: Vec<Th> = (0..n).map(|_| Th { status: Status::NotStarted, streak: 0, last_site: u32::MAX, park_abort: false, pause_until: 0, prio: 0 }).collect();
+    let mut th: Vec<Th> = (0..n).map(|_| Th { status: Status::NotStarted, streak: 0, h_streak: 0, last_site: u32::MAX, park_abort: false, pause_until: 0, prio: 0 }).collect();
     let mut pct_changes = Vec::new();
     if let Strategy::Pct { depth, est_steps } = cfg.strategy {
         let mut prios: Vec<i64> = (0..n as i64).map(|i| i + depth as i64).collect();
